@@ -373,7 +373,19 @@ impl Property for C06 {
                 }
             }
             if i == start_at && walk.is_none() {
-                let limit = if case.limit == 0 { None } else { Some(case.limit as usize) };
+                // tiny page sizes are only used on small sets: an address holding more than the
+                // real page limit is walked with the real limit or a few hundred per page
+                let expected_size = {
+                    let tip = w.model.best_tip();
+                    w.model.utxos_of(&addr, tip).len()
+                };
+                let limit = if case.limit == 0 {
+                    None
+                } else if expected_size > 60 {
+                    if case.limit % 2 == 0 { None } else { Some(150 * case.limit as usize) }
+                } else {
+                    Some(case.limit as usize)
+                };
                 let mut wk = Walk {
                     addr: addr.clone(),
                     limit,
